@@ -92,7 +92,8 @@ def rewrite_tables(repo):
 # ---------------------------------------------------------------------------------------------
 # C18: dask/utils.py  format_bytes / parse_bytes / parse_timedelta tables
 # ---------------------------------------------------------------------------------------------
-fp("dask/utils.py", "format_bytes", "parse_bytes", "parse_timedelta", "key_split", "natural_sort_key")
+fp("dask/utils.py", "format_bytes", "parse_bytes", "parse_timedelta", "key_split", "natural_sort_key", "format_time",
+   "typename", "funcname")
 
 
 def _const_int(node):
